@@ -3286,10 +3286,14 @@ func (bc *Blockchain) GetTestHistoricVM(t trigger.Type, tx *transaction.Transact
 	}
 	var mode = mpt.ModeAll
 	if bc.config.RemoveUntraceableBlocks {
-		if b.Index < bc.BlockHeight()-bc.GetMaxTraceableBlocks() {
+		// Heights are unsigned, a chain can be shorter than MaxTraceableBlocks.
+		if mtb := bc.GetMaxTraceableBlocks(); bc.BlockHeight() > mtb && b.Index < bc.BlockHeight()-mtb {
 			return nil, fmt.Errorf("state for height %d is outdated and removed from the storage", b.Index)
 		}
-		mode |= mpt.ModeGCFlag
+		// Nodes are stored with reference counters in this mode, but the
+		// historic state consists mostly of inactive (no longer referenced by
+		// the latest state) nodes, they must not be filtered out.
+		mode = mpt.ModeLatest
 	}
 	if b.Index < 1 || b.Index > bc.BlockHeight()+1 {
 		return nil, fmt.Errorf("unsupported historic chain's height: requested state for %d, chain height %d", b.Index, bc.blockHeight)
